@@ -3,7 +3,7 @@
    macro families.  The specification (SplitSpec.v) is a level table
    transcribed from each header's "Data Layout" comment plus one generic
    interpreter; nothing here but statements closed by `exact`. *)
-Require Import VV.Base VV.Split VV.SplitSpec VV.SplitProofs VV.Split16Proofs VV.SplitSpecProofs
+Require Import VV.Base VV.Split VV.SplitSpec VV.SplitProofs VV.Split16Proofs VV.SplitSpecProofs VV.Split16SpecProofs
                VV.SplitConsts VVgen.Consts.
 Local Open Scope N_scope.
 
